@@ -10,7 +10,7 @@ import json
 from pv import ctx
 from pv.harness import (build_objects, build_state, lib_objects, parse_domain, problem_text, read_lib_state,
                         read_state_tree, unjstate, BadState)
-from pv.lib import lib_call, parse_problem_text
+from pv.lib import lib_call, parse_problem_text, write_tmp
 from pv.props import plan_common as PC, sem_common as S
 from pv.ref import pddl, sexpr
 from pv.runner import Res
@@ -18,7 +18,7 @@ from pv.runner import Res
 ID = "C04"
 RULE = ("generated (domain, problem, plan) triples: plans of 1..N type-correct calls, each step drawn from the "
         "reference's currently applicable ground actions (p=0.7) or from all ground actions, so refused steps occur at "
-        "every position; with and without allow_invalid_actions; plan lines in lower or upper case.  Non-trivial = plan "
+        "every position; with and without allow_invalid_actions; plan lines in lower or upper case, passed as a list or (40 %) read from a plan file with indentation, trailing blanks and CRLF.  Non-trivial = plan "
         "length >= 3 containing both an applicable and an inapplicable step.  Distinct by (domain, init, plan, switch).")
 ASSUMPTIONS = ["once a step has no defined reference outcome (conflicting effects, undefined value, or an inapplicable "
                "step executed under allow_invalid_actions) only chaining is checked for the rest of the plan",
@@ -70,7 +70,16 @@ def check_case(case):
                 exporter.parse_plan(warm, action_sequence=list(lines))
             except Exception:  # noqa: whatever the warm-up does is not under test
                 pass
-        triplets = exporter.parse_plan(problem, action_sequence=list(lines))
+        if case.get("via_file"):
+            # the other entry point: the plan read from a file, one call per line, in a legal layout of its own
+            # (indentation, trailing blanks, CRLF) - no blank lines: the reader does not accept them
+            fl = case["via_file"]
+            path = write_tmp("".join([" ", "", "\t", "   "][(fl + i) % 4] + PC.call_text(s, case.get("case_mode", 0)) +
+                                     ["", " ", "", "\t"][(fl + 2 * i) % 4] + ("\r\n" if fl % 3 == 0 else "\n")
+                                     for i, s in enumerate(plan)), suffix=".plan", newline="")
+            triplets = exporter.parse_plan(problem, plan_path=path)
+        else:
+            triplets = exporter.parse_plan(problem, action_sequence=list(lines))
         out = []
         for t in triplets:
             out.append((read_lib_state(t.previous_state), str(t.operator), read_lib_state(t.next_state)))
@@ -244,6 +253,8 @@ def chunk_cases(tier, chunk):
 def gen(ch, tier):
     case = PC.gen_plan_case(ch, tier, max_len=8 if tier == "quick" else 25)
     case["allow"] = ch.flag(0.3)
+    if ch.flag(0.4):
+        case["via_file"] = ch.int(1, 12)
     return case
 
 
